@@ -58,6 +58,11 @@ checks.update({
  "C11": dict(cat="exploration", ref="4/C11", tech="runtime monitoring: plugin-session interval / call-return / stored-status oracle over control-call histories with slow store acknowledgements of status writes; porcupine linearizability check of healthy control histories against a 3-state lifecycle register + Go race detector",
    text="One sequential client per pipeline issues 5-14 control calls (Start, Stop, Stop+Wait, StopAndWait, force stop, overlapping background waits) in healthy, failure-interleaved and gated-status histories (every status write acknowledged 2-22 ms late; Stop, Start as soon as the stopped status is visible, StopAndWait on the new run). Judged: plugin sessions of one connector never overlap; a stop on a Running pipeline with a live run is neither refused nor misses that run; StopAndWait/WaitPipeline return only after the run that was live at the call is torn down and report its result; Start after an ended run is not refused as 'already running'; final status agrees with whether a run is live; healthy call results are linearizable (porcupine); wedge = watchdog twice; a reproduced process death is a violation.", note=PIPE_NOTE + " Calls are issued one at a time per pipeline as the property's quantifier says."),
 })
+
+checks.update({
+ "C16": dict(cat="exploration", ref="4/C16", tech="runtime monitoring: plan/apply history monitor over the real provisioning + lifecycle services under record flow (stale, concurrent, unauthorised, store-fault and restart-failure variants), drain-before-write and resume-position oracles over the recorded event log and store snapshots + Go race detector",
+   text="One configuration change applied with ApplyPlanLive under record flow in 8 variants; judged: stale/concurrent plans never both succeed, no touch of a running pipeline without authorisation, in restart mode the configuration is written only after the old run's plugin sessions are torn down and positions are durable, every source resumes at the stored position with nothing unhandled behind it, failed/refused applies leave a fully-old-or-fully-new configuration that a restarted server would load identically, every ack in the history justified.", note=PIPE_NOTE + " The HTTP handler's handling of the operator flag is not exercised (service level only)."),
+})
 ALL = ["C%02d" % i for i in range(1, 21)]
 na_reason = "check under construction in this round (see DESIGN.md section 4 for the planned monitor); not claimed until it runs silent on the unchanged tree and catches seeded mutants"
 m = {
